@@ -82,6 +82,7 @@ def handle (j : J) : J :=
     | some (data, errs) =>
       let sites := Spec.NullSites.sitesFields root
       .obj [("exec", .obj [("data", data), ("errors", .arr (errs.map errToJson))]),
+            ("keys_distinct", .bool (decide (Spec.NullSites.keysOf root).Nodup && Spec.NullSites.keysDistinctFields root)),
             ("bijection", .bool (errs.map Err.path? == sites.map some && sites.all fun p => (dataAt data p).map J.isNull == some true))]
   | "lines" =>
     let text := j.textD "text"
